@@ -25,6 +25,7 @@ def run(ctx, rep):
         check_rec(crate, rep, cfg)
         check_same(crate, rep, cfg)
         check_child_vm(crate, rep, cfg)
+        check_priority(crate, rep, cfg)
         check_bind(crate, rep, cfg)
         check_getter(crate, rep, cfg)
 
@@ -179,6 +180,106 @@ def check_same(crate, rep, cfg):
     key = "C05.SAME:result-safe"
     (rep.ok if n >= 2 else rep.bad)("C05.SAME", key, interp.where(0), "the rendered component text is pushed as a safe string at %d site(s) (not escaped a second time)" % n
                                     + ("" if n >= 2 else " — VIOLATED (floor 2)"))
+
+
+def check_priority(crate, rep, cfg):
+    """C05.PRIO — which definition of a component wins under fallback prefixes is decided in finalize_templates' first loop by a table
+    component -> (defining template, its priority). The table must stay a table of PAIRS: it is changed only by inserting a fresh pair
+    (this template's name, this template's priority), for a name not seen yet or on the `current < existing` edge of the comparison of
+    this template's priority with the stored one; equal priorities are the duplicate error. A slot updated in place (name without
+    priority) compares later candidates against a stale number."""
+    b = crate.one("tera::Tera::finalize_templates")
+    tr = Tracer(b)
+    ef = EdgeFacts(b, crate)
+    tabs = [i for i, l in enumerate(b.locals) if l["ty"].replace(" ", "").startswith("std::collections::HashMap<&str,(&str,usize)") and i > b.arg_count]
+    if len(tabs) != 1:
+        rep.anchor_missing("C05.PRIO", "the component -> (template, priority) table of finalize_templates (%d candidates)" % len(tabs))
+        return
+    tab = tabs[0]
+
+    def on_table(op):
+        ls = [l for l in tr.operand(op) if l.kind != "cycle"]
+        return bool(ls) and all((l.kind == "call" and l.detail[0].endswith("HashMap::<K, V>::new")) or (l.kind == "call" and "HashMap" in l.detail[0] and l.detail[0].rsplit("::", 1)[-1] in ("new", "with_capacity", "default"))
+                                for l in ls) and any(op["k"] in ("copy", "move") for _ in [0])
+    uses = []
+    for bb, t in b.calls():
+        if not t["args"] or "HashMap" not in callee_def(t):
+            continue
+        a0 = t["args"][0]
+        if a0["k"] not in ("copy", "move"):
+            continue
+        # the receiver is (a borrow of) the table local
+        l0 = a0["pl"]["l"]
+        src = {l0}
+        for (b3, i3, dp, rv) in b.defs.get(l0, []):
+            if rv["k"] == "ref" and not rv["pl"]["p"]:
+                src.add(rv["pl"]["l"])
+        if tab in src:
+            uses.append((bb, t, callee_def(t).rsplit("::", 1)[-1]))
+    muts = sorted({m for bb, t, m in uses if m not in ("get", "contains_key", "iter", "len", "is_empty", "keys", "values", "insert")})
+    rep.add("C05.PRIO", "C05.PRIO:table:changed-by-insert-only", not muts and bool(uses), b.where(uses[0][0]) if uses else b.where(0), "the table is read (get/iter) and changed only through "
+            "insert of a whole (template, priority) pair" + ("" if not muts and uses else " — VIOLATED: also %s" % muts))
+    inserts = [(bb, t) for bb, t, m in uses if m == "insert"]
+    gets = [(bb, t) for bb, t, m in uses if m == "get"]
+    prios = [bb for bb, t in b.calls() if callee_def(t).endswith("Tera::get_template_priority")]
+    ok = len(inserts) >= 1 and len(gets) == 1 and len(prios) >= 1
+    why = "anchors: %d inserts, %d get, %d get_template_priority" % (len(inserts), len(gets), len(prios))
+    if ok:
+        some = rrec.ok_edges_of_call(b, crate, gets[0][0])
+        for bb, t in inserts:
+            v = t["args"][2]
+            nm = tr.operand(v, [".0"]) if v["k"] in ("copy", "move") else set()
+            pr = tr.operand(v, [".1"]) if v["k"] in ("copy", "move") else set()
+            if not (pr and all(l.kind == "call" and l.detail[2] in prios for l in pr)):
+                ok, why = False, "the priority stored at %s is not this template's get_template_priority(..)" % b.where(bb)
+                continue
+            pa = set()
+            for l in pr:
+                pa |= {(x.kind, x.detail) for x in tr.operand(b.term(l.detail[2])["args"][1]) if x.kind != "cycle"}
+            na = {(x.kind, x.detail) for x in nm if x.kind != "cycle"}
+            if not (na and na == pa and all(".name" in x.projs for x in nm if x.kind != "cycle")):
+                ok, why = False, "the name stored at %s is not the name of the template whose priority is stored" % b.where(bb)
+                continue
+            under_some = any(b.dominates(tgt, bb) for sb, tgt in some)
+            if under_some:
+                # override: on the true edge of `current < existing` (or its mirror), current = the priority call, existing = the slot's .1
+                good = False
+                for sb in sorted(b.reachable):
+                    if b.term(sb)["k"] != "switch" or not b.dominates(sb, bb) or sb == bb:
+                        continue
+                    for tgt, fl in ef.facts_for_switch(sb).items():
+                        for f in fl:
+                            if f[0] != "cmp" or not b.dominates(tgt, bb) or tgt == sb:
+                                continue
+                            d = ef.single_def(b.term(sb)["op"]["pl"]["l"])
+                            if d is None or d[3]["k"] != "bin":
+                                continue
+                            ll, rl = tr.operand(d[3]["l"]), tr.operand(d[3]["r"])
+                            cur_l = bool(ll) and all(l.kind == "call" and l.detail[2] in prios for l in ll)
+                            cur_r = bool(rl) and all(l.kind == "call" and l.detail[2] in prios for l in rl)
+                            ex_l = bool(ll) and all(l.kind == "call" and l.detail[2] == gets[0][0] for l in ll)
+                            ex_r = bool(rl) and all(l.kind == "call" and l.detail[2] == gets[0][0] for l in rl)
+                            op, truth = f[1], f[4]
+                            if cur_l and ex_r and ((op == "Lt" and truth is True) or (op == "Ge" and truth is False)):
+                                good = True
+                            if ex_l and cur_r and ((op == "Gt" and truth is True) or (op == "Le" and truth is False)):
+                                good = True
+                        for f in fl:
+                            # `match current.cmp(&existing) { Less => insert .. }`
+                            if f[0] == "variant" and f[1] == "std::cmp::Ordering" and f[4] and set(f[3]) == {"Less"} and b.dominates(tgt, bb) and tgt != sb:
+                                d = ef.single_def(b.term(sb)["op"]["pl"]["l"])
+                                src = tr.place(d[3]["pl"]) if d and d[3]["k"] == "discr" else set()
+                                for l in src:
+                                    if l.kind == "call" and l.detail[0].endswith("::cmp"):
+                                        ct = b.term(l.detail[2])
+                                        a, c = tr.operand(ct["args"][0]), tr.operand(ct["args"][1])
+                                        if a and c and all(x.kind == "call" and x.detail[2] in prios for x in a) and all(x.kind == "call" and x.detail[2] == gets[0][0] for x in c):
+                                            good = True
+                if not good:
+                    ok, why = False, "the overriding insert at %s is not on the `this priority < stored priority` edge" % b.where(bb)
+    rep.add("C05.PRIO", "C05.PRIO:table:pairs-of-one-template", ok, b.where(inserts[0][0]) if inserts else b.where(0), "every insert stores (tpl.name, get_template_priority(tpl.name)) of "
+            "one template; an existing slot is replaced only when this template's priority is strictly lower (= higher precedence) than the stored one"
+            + ("" if ok else " — VIOLATED: " + why))
 
 
 def check_child_vm(crate, rep, cfg):
